@@ -368,8 +368,8 @@ structure KidsOK (root : PT) (ks : List PT) (lo hi : Nat) : Prop where
 
 theorem KidsOK.of_node {root : PT} {kd : Kind} {ks : List PT} (hwf : (PT.nt kd ks).WF)
     (hsub : PT.Sub (.nt kd ks) root) : KidsOK root ks (PT.nt kd ks).pos (PT.nt kd ks).posEnd :=
-  ⟨fun k hk => (hwf.kid hk).1, fun k hk => (PT.Sub.kid hk (PT.Sub.refl k)).trans hsub,
-   fun k hk => (hwf.kid hk).2.1, fun k hk => (hwf.kid hk).2.2, hwf.kids_ordered⟩
+  ⟨fun _ hk => (hwf.kid hk).1, fun k hk => (PT.Sub.kid hk (PT.Sub.refl k)).trans hsub,
+   fun _ hk => (hwf.kid hk).2.1, fun _ hk => (hwf.kid hk).2.2, hwf.kids_ordered⟩
 
 theorem KidsOK.tail {root : PT} {k : PT} {ks : List PT} {lo hi : Nat} (h : KidsOK root (k :: ks) lo hi) :
     KidsOK root ks k.posEnd hi :=
@@ -415,7 +415,7 @@ theorem spanOf_finish (h : Heap) (id : Nat) : ∀ (tl : List Nat) (x : Nat),
       | [] => h
       | p :: _ => h.setParent id p) x = spanOf h x
   | [], _ => rfl
-  | p :: _, x => spanOf_setParent _ _ _ x
+  | _ :: _, x => spanOf_setParent _ _ _ x
 
 mutual
 theorem processNode_span (mm : Nat → List MetaAttr) (root : PT) : (n : PT) → ∀ (s : St) (v : Val) (s' : St),
